@@ -301,7 +301,10 @@ class C04(CheckBase):
         raise RuntimeError(a)
 
     def key(self, ctx, m):
-        return (tuple(sorted(m.so.items())), tuple(sorted(m.user.items(), key=lambda x: x[0])), tuple(sorted(m.prev)), m.objects)
+        # the token flags the library reports (PIN-count warnings after failed attempts) are state the model does not carry: part of the key
+        slots = ctx.world["slots"]
+        flags = tuple(ctx.p.GetTokenInfo(slots[t]).get("flags") for t in ("A", "B") if t in slots)
+        return (tuple(sorted(m.so.items())), tuple(sorted(m.user.items(), key=lambda x: x[0])), tuple(sorted(m.prev)), m.objects, flags)
 
     def died_sig(self, action, d):
         return "C04|%s|%r" % (action[0] if action else None, d.info)
